@@ -370,6 +370,11 @@ func PoolB() *Pool {
 	add("d(X,Y) :- k(X,Y), X != 1, Y != X.")
 	add("d(X,Y) :- k(X,Y), k(Y,X).")
 	add("d(X,Y) :- k(X,Z), Y = fn:plus(Z, X), n(Y).")
+	add("hf(fn:plus(X, 1)) :- n(X).")
+	add("hf(fn:pair(X, Y)) :- k(X,Y), X != Y.")
+	add("e2(X) :- n(X), Y = fn:plus(X, 1), n(Y).")
+	add("e2(X) :- n(X), Y = fn:minus(X, 1), !n(Y).")
+	add("e3(X,Z) :- k(X,Y), W = fn:plus(Y, 1), k(W,Z).")
 	add("g(Y) :- n(X), Y = fn:plus(X, 1), Y < 4.")
 	add("g(Y) :- g(X), Y = fn:plus(X, 1), Y < 6.")
 	add("g(Y) :- g(X), n(X) |> let Y = fn:mult(X, 2).")
